@@ -228,7 +228,8 @@ Proof.
       * subst s1. cbn. intros Hin. apply NR. right. exact Hin.
       * subst s1. unfold Rok. cbn. rewrite FR by exact NRx. auto.
       * rewrite ED. exists s'. split; [f_equal; rewrite OD; cbn [coro_frame]; lia|].
-        subst s1. cbn in *. repeat split; auto; try lia.
+        split; [rewrite T; subst s1; cbn [total set_total set_ks feed length]; lia|].
+        split; [exact F|]. split; [exact W|]. split; [exact RS|]. exists D'. exact HD'.
     + (* coroutine: Deferred.__await__ returns the result without yielding *)
       assert (RY : ready (heap_of (ks s)) x = Some (VInt 1)) by (unfold ready; rewrite GD, PD; exact RD).
       rewrite RY.
@@ -238,7 +239,8 @@ Proof.
       * subst s1. cbn. intros Hin. apply NR. right. exact Hin.
       * subst s1. unfold Rok. cbn. auto.
       * rewrite ED. exists s'. split; [f_equal; lia|].
-        subst s1. cbn in *. repeat split; auto; try lia.
+        split; [rewrite T; subst s1; cbn [total set_total feed length]; lia|].
+        split; [exact F|]. split; [exact W|]. split; [exact RS|]. exists D'. exact HD'.
 Qed.
 
 (** without the waiting list the same awaits cost four frames each *)
@@ -263,5 +265,173 @@ Proof.
     + subst s1. cbn. intros Hin. apply NR. right. exact Hin.
     + subst s1. unfold Rok. cbn. rewrite FR by exact NRx. auto.
     + rewrite ED. exists s'. split; [f_equal; rewrite OD; cbn [length]; lia|].
-      subst s1. cbn in *. lia.
+      rewrite T. subst s1. cbn [total set_total set_ks feed length]. lia.
+Qed.
+
+(** ---- concrete families, for every n ---- *)
+Lemma add_uncalled st x D cb eb :
+  get (heap_of st) x = Some D -> called D = false ->
+  exec true st (OAdd x cb eb)
+  = (mkS (upd (heap_of st) x (fun D0 => set_cbs (cbs D0 ++ [Pair (next_k st) cb eb]) D0)) (S (next_k st)), [])
+  /\ op_depth true st (OAdd x cb eb) = 1.
+Proof. intros HD HC. unfold exec, op_depth. rewrite HD, HC. auto. Qed.
+
+Lemma fire_waited st x D k z :
+  get (heap_of st) x = Some D -> called D = false -> paused D = 0%Z -> cbs D = [Pair k got got] ->
+  exists h' evs,
+    exec true st (OCallback x z) = (mkS h' (next_k st), evs)
+    /\ ran x k evs = Some (VInt z)
+    /\ (forall y, y <> x -> get h' y = get (heap_of st) y)
+    /\ op_depth true st (OCallback x z) = 4.
+Proof.
+  intros HD HC HP HB. destruct st as [h nk]. cbn [heap_of next_k] in *.
+  set (h1 := upd h x (fun D0 => set_res (Some (VInt z)) (set_called true D0))).
+  set (D1 := set_res (Some (VInt z)) (set_called true D)).
+  assert (G1 : get h1 x = Some D1) by (subst h1 D1; rewrite get_upd_same, HD; reflexivity).
+  assert (ST1 : step true h1 [x]
+                = Some (upd (upd h1 x (fun D0 => set_cbs [] (set_chained None D0))) x (set_res (Some VNone)),
+                        [x], [ERun x k (VInt z)])).
+  { replace (ERun x k (VInt z)) with (ERun x k (cur_result D1)) by (subst D1; reflexivity).
+    eapply (step_call h1 x [] D1 k got got [] (BRet VNone) VNone G1).
+    - subst D1. cbn. exact HP.
+    - subst D1. cbn. exact HB.
+    - reflexivity.
+    - reflexivity.
+    - intros y E. discriminate. }
+  set (h2 := upd (upd h1 x (fun D0 => set_cbs [] (set_chained None D0))) x (set_res (Some VNone))) in *.
+  set (D2 := set_res (Some VNone) (set_cbs [] (set_chained None D1))).
+  assert (G2 : get h2 x = Some D2) by (subst h2 D2; rewrite !get_upd_same, G1; reflexivity).
+  assert (ST2 : step true h2 [x] = Some (upd h2 x (set_chained None), [], [])).
+  { eapply (step_done h2 x [] D2 G2); subst D2 D1; cbn; [exact HP|reflexivity]. }
+  exists (upd h2 x (set_chained None)), (EFired x (VInt z) ByUser :: [ERun x k (VInt z)] ++ ([] ++ [])).
+  split; [|split; [|split]].
+  - unfold exec, fire. cbn [heap_of next_k]. rewrite HD, HC. fold h1.
+    assert (I : iter true 2 h1 [x] = Some (upd h2 x (set_chained None), [ERun x k (VInt z)] ++ ([] ++ []))).
+    { eapply iter_step; [exact ST1|]. eapply iter_step; [exact ST2|apply iter_nil]. }
+    rewrite (runCallbacks_any_fuel _ _ _ _ _ I). reflexivity.
+  - cbn [ran app]. rewrite !Nat.eqb_refl. reflexivity.
+  - intros y Hy. subst h2 h1. rewrite !get_upd_other by congruence. reflexivity.
+  - unfold op_depth. cbn [heap_of]. rewrite HD, HC. fold h1.
+    rewrite (loop_depth_pair _ _ _ _ _ ST1); [reflexivity|].
+    unfold step_calls. rewrite G1. subst D1. cbn. rewrite HP, HB. reflexivity.
+Qed.
+
+Lemma iinit_get_aw aw x o :
+  nth_error aw x = Some o -> get (heap_of (ks (iinit aw))) x = Some (mk_awaited o).
+Proof.
+  intros H. cbn [iinit ks heap_of]. unfold get.
+  rewrite nth_error_app1 by (rewrite map_length; apply nth_error_Some; congruence).
+  rewrite nth_error_map, H. reflexivity.
+Qed.
+
+Lemma iinit_get_R aw : get (heap_of (ks (iinit aw))) (length aw) = Some (new_dfr CNothing).
+Proof.
+  cbn [iinit ks heap_of]. unfold get. rewrite nth_error_app2 by (rewrite map_length; lia).
+  rewrite map_length, Nat.sub_diag. reflexivity.
+Qed.
+
+Lemma nth_error_repeat' {A} (a : A) n x : x < n -> nth_error (repeat a n) x = Some a.
+Proof. revert x; induction n as [|n IH]; intros [|x] H; cbn; try lia; [reflexivity|apply IH; lia]. Qed.
+
+Definition ones (n : nat) : list (option value) := repeat (Some (VInt 1)) n.
+
+(** from the start: n already-fired awaits *)
+Theorem prefired_from_start sty n :
+  let r := irun_program (sty, ones n, []) in
+  snd r = [start_depth sty + 3]
+  /\ exists D', get (heap_of (ks (fst r))) n = Some D' /\ called D' = true /\ res D' = Some (VInt (Z.of_nat n)).
+Proof.
+  cbn zeta. unfold irun_program, istart, ones. rewrite repeat_length.
+  set (s0 := iinit (repeat (Some (VInt 1)) n)).
+  destruct (drive_prefired sty (seq 0 n) s0 (start_depth sty) (new_dfr CNothing)) as [s' [ED [T [F [W [RS [D' HD']]]]]]].
+  - apply seq_NoDup.
+  - intros x Hx. apply in_seq in Hx. exists (mk_awaited (Some (VInt 1))). split.
+    + subst s0. apply iinit_get_aw. apply nth_error_repeat'. lia.
+    + cbn. auto.
+  - subst s0. cbn [resD iinit]. rewrite repeat_length. intros Hin. apply in_seq in Hin. lia.
+  - unfold Rok. subst s0. cbn [resD iinit]. split; [apply iinit_get_R|]. cbn. auto.
+  - rewrite ED. cbn [irun fst snd length cbs new_dfr]. split; [f_equal; lia|].
+    exists D'. subst s0. cbn [resD iinit total] in *. rewrite repeat_length, seq_length in *.
+    destruct HD' as [G [C R]]. rewrite T in R. auto.
+Qed.
+
+(** after a first real suspension: the first await is unfired, then n already-fired ones; the recorder is added and
+    the first Deferred fires *)
+Theorem prefired_after_suspension sty n :
+  let r := irun_program (sty, None :: ones n, [IRec; IFire 0 1]) in
+  snd r = [start_depth sty + 1; 1; 9]
+  /\ exists D', get (heap_of (ks (fst r))) (S n) = Some D' /\ called D' = true
+                /\ res D' = Some (VInt (1 + Z.of_nat n)).
+Proof.
+  cbn zeta. unfold irun_program, istart. cbn [length]. unfold ones. rewrite repeat_length.
+  set (aw := None :: repeat (Some (VInt 1)) n).
+  set (s0 := iinit aw). set (h0 := heap_of (ks s0)).
+  assert (G0 : get h0 0 = Some (new_dfr CNone)) by (subst h0 s0; apply (iinit_get_aw aw 0 None); reflexivity).
+  assert (GR : get h0 (S n) = Some (new_dfr CNothing)).
+  { subst h0 s0. replace (S n) with (length aw) by (subst aw; cbn; rewrite repeat_length; reflexivity). apply iinit_get_R. }
+  assert (GX : forall x, 1 <= x <= n -> get h0 x = Some (mk_awaited (Some (VInt 1)))).
+  { intros x Hx. subst h0 s0. apply iinit_get_aw. subst aw. destruct x as [|x]; [lia|]. cbn. apply nth_error_repeat'. lia. }
+  (* the start: suspends on Deferred 0 *)
+  destruct (add_uncalled (ks s0) 0 (new_dfr CNone) got got G0 eq_refl) as [EA DA].
+  set (hA := upd h0 0 (fun D0 => set_cbs (cbs D0 ++ [Pair 0 got got]) D0)).
+  set (sA := set_wait (Some (0, 0, seq 1 n)) (set_ks (mkS hA 1) s0)).
+  assert (DRV : drive sty s0 (seq 0 (S n)) (start_depth sty) = (sA, start_depth sty + 1)).
+  { cbn [seq drive].
+    assert (RY : ready (heap_of (ks s0)) 0 = None) by (fold h0; unfold ready; rewrite G0; reflexivity).
+    assert (M : (match sty with SCoro => ready (heap_of (ks s0)) 0 | SGen => None end) = None) by (destruct sty; auto).
+    rewrite M, EA, DA. cbn [ran]. subst sA hA h0. f_equal. destruct sty; cbn; lia. }
+  rewrite DRV. cbn [irun].
+  (* the recorder *)
+  assert (LA : length aw = S n) by (subst aw; cbn [length]; rewrite repeat_length; reflexivity).
+  assert (RA : resD sA = S n) by (subst sA s0; cbn [resD set_wait set_ks iinit]; exact LA).
+  assert (GRA : get (heap_of (ks sA)) (resD sA) = Some (new_dfr CNothing)).
+  { rewrite RA. subst sA. cbn [ks heap_of set_wait set_ks]. subst hA. rewrite get_upd_other by lia. exact GR. }
+  destruct (add_uncalled (ks sA) (resD sA) (new_dfr CNothing) (Some BPass) (Some BPass) GRA eq_refl) as [EB DB].
+  cbn [iexec]. rewrite EB, DB. cbn [fst].
+  set (hB := upd (heap_of (ks sA)) (resD sA) (fun D0 => set_cbs (cbs D0 ++ [Pair (next_k (ks sA)) (Some BPass) (Some BPass)]) D0)).
+  set (sB := set_ks (mkS hB (S (next_k (ks sA)))) sA).
+  pose proof RA as RB.
+  (* the firing of Deferred 0 *)
+  assert (G0B : get (heap_of (ks sB)) 0 = Some (set_cbs (cbs (new_dfr CNone) ++ [Pair 0 got got]) (new_dfr CNone))).
+  { subst sB hB. cbn [ks heap_of set_ks]. rewrite RB, get_upd_other by lia. subst sA hA. cbn [ks heap_of set_ks set_wait].
+    rewrite get_upd_same. fold h0. rewrite G0. reflexivity. }
+  destruct (fire_waited (ks sB) 0 _ 0 1 G0B eq_refl eq_refl eq_refl) as [hC [evs [EC [RN [FC DC]]]]].
+  rewrite EC, DC. cbn [wait sB set_ks]. subst sB. cbn [wait set_ks]. subst sA. cbn [wait set_wait]. rewrite RN.
+  match goal with |- context [drive sty ?t (seq 1 n) 5] => set (s1 := t) end.
+  assert (GC : forall y, y <> 0 -> get hC y = get hB y) by (intros y Hy; rewrite FC by exact Hy; reflexivity).
+  destruct (drive_prefired sty (seq 1 n) s1 5
+              (set_cbs (cbs (new_dfr CNothing) ++ [Pair 1 (Some BPass) (Some BPass)]) (new_dfr CNothing)))
+    as [s' [ED [T [F [W [RS [D' HD']]]]]]].
+  - apply seq_NoDup.
+  - intros x Hx. apply in_seq in Hx. exists (mk_awaited (Some (VInt 1))). split; [|cbn; auto].
+    subst s1. cbn [ks heap_of set_wait set_total set_ks]. rewrite GC by lia. subst hB.
+    cbn [ks heap_of set_ks set_wait resD] in *. rewrite get_upd_other by (rewrite RB; lia).
+    subst hA. rewrite get_upd_other by lia. apply GX. lia.
+  - subst s1. cbn [resD set_wait set_total set_ks]. cbn [resD set_ks set_wait] in RB. rewrite RB.
+    intros Hin. apply in_seq in Hin. lia.
+  - unfold Rok. subst s1. cbn [ks heap_of resD set_wait set_total set_ks]. cbn [resD set_ks set_wait] in RB. rewrite RB.
+    split; [|cbn; split; [reflexivity|split; [reflexivity|right; eexists; reflexivity]]].
+    rewrite GC by lia. subst hB. cbn [ks heap_of resD set_ks set_wait next_k] in *. rewrite RB, get_upd_same.
+    subst hA. rewrite get_upd_other by lia. rewrite GR. reflexivity.
+  - rewrite ED. cbn [fst snd length app cbs set_cbs new_dfr]. split.
+    + replace (Nat.max (start_depth sty) (start_depth sty + 1)) with (start_depth sty + 1) by lia.
+      replace (Nat.max 4 (Nat.max (Nat.max 5 (coro_frame sty 5)) (5 + 3 + 1))) with 9 by (destruct sty; cbn; lia).
+      reflexivity.
+    + exists D'. subst s1. cbn [resD set_wait set_total set_ks total feed] in *. cbn [resD set_ks set_wait] in RB.
+      rewrite RB in HD'. destruct HD' as [G [C R]]. rewrite T, seq_length in R.
+      split; [exact G|]. split; [exact C|]. rewrite R. subst s0. cbn [iinit total]. repeat f_equal; try lia.
+Qed.
+
+(** the same n awaits without the waiting list: four frames each *)
+Theorem naive_inline_depth_grows n :
+  snd (drive_naive (iinit (ones n)) (seq 0 n) 3) = 3 + 4 * n + 3.
+Proof.
+  destruct (drive_naive_prefired (seq 0 n) (iinit (ones n)) 3 (new_dfr CNothing)) as [s' [ED _]].
+  - apply seq_NoDup.
+  - intros x Hx. apply in_seq in Hx. exists (mk_awaited (Some (VInt 1))). split.
+    + apply iinit_get_aw. apply nth_error_repeat'. lia.
+    + cbn. auto.
+  - cbn [resD iinit]. unfold ones. rewrite repeat_length. intros Hin. apply in_seq in Hin. lia.
+  - unfold Rok. cbn [resD iinit]. split; [apply iinit_get_R|]. cbn. auto.
+  - rewrite ED. cbn [snd length cbs new_dfr]. rewrite seq_length. lia.
 Qed.
